@@ -2,6 +2,8 @@
 //
 // The legs that run in the NORMAL tiers (key / value types, re-entrant callbacks, word-size arguments, held listings) are
 // in legs3.go, with an oracle stated over the event stream.
+// Fourth wave, also NORMAL tiers: keys that are not equal to themselves (NaN and composites holding NaN) are in legs4.go
+// (leg "nan", its own list reference).
 //
 // The normal tiers run short histories over six keys. The legs below reach what those cannot:
 //
